@@ -31,7 +31,7 @@ for _pid, _text in {
     "C01": "Every UpDownload event (whole file and byte ranges through the pointer's string form) must carry an output whose interned digest equals that of the expected slice, and every uploaded file record must flatten, through the xorbs actually stored, to the file's chunk-id sequence.",
     "C02": "Every put must be consistent with its declared boundaries and chunk hashes and be named by the independently recomputed xorb hash (function + injective); every file record must reference stored xorbs with in-range indices and byte counts, verification hashes, file hash and SHA-256 equal to the reference values; every stored xorb file must pass both validators and re-hash to its name.",
     "C03": "Every Finish must return the reference file hash of (content, salt) and the byte count; the map (content, salt) -> (hash, size) is checked to be a function and injective over all scenarios of a run (feed partitions, dedup state, concurrency, ingestion block sizes vary).",
-    "C11": "After a successful finalize the CAS sections readable from the local shard cache must list every xorb the session stored; a later Finish whose chunks are all in the cache and that reports no fragmentation prevention must report zero new bytes.",
+    "C11": "After a successful finalize the CAS sections readable from the local shard cache must list every xorb the session stored; a later Finish whose chunks are all in the cache and that reports no fragmentation prevention must report zero new bytes (sessions of several users, and of several processes sharing one cache directory). ShardManager.tla (ShardFileManager at lock granularity; NoLoss / FoundAgain under every interleaving of add, the two critical sections of flush, and register; negative control reset_late) is model-checked and its TLC-generated schedules are replayed on two threads under gate control, validated by Trace_ShardManager.tla.",
     "C14": "Per file: size = total = bytes fed, new + deduped = total (bytes and chunks), the per-position decisions of the deduper partition the file, prevented counters equal the new chunks covered by a rejected hit; per session: sums of its files, xorb/shard upload bytes equal what the store accepted.",
     "C15": "Every PutStart must be non-empty, within the configured chunk and byte limits with every chunk within the maximum chunk size; no uploaded file record may hold the zero xorb hash.",
     "C16": "Every ShardStart must reference only xorbs already stored; a session with an injected put or shard failure must report an error from add_data / finish / finalize and never reach a successful Finalize; a successful Finalize requires every finished file's record to be uploaded with all its xorbs stored.",
@@ -40,7 +40,7 @@ for _pid, _text in {
 
 _SH_NOTE = "hashes are engineered [u64;4] values projected to <<prefix id, full id>>; blake3/HMAC uninterpreted (reference keyed forms from the harness's own blake3 keyed hash); xorb / file content is a function of its hash in the generated shard families."
 CLAIMED["C05"] = ("Shard",
-    "TLC model checking of the lookup / dedup-query definitions of Shard.tla over all small shards (colliding prefixes, repeated chunks, plain and keyed, result buffer overflow; negative control: prefix-only answers); every dedup answer of the in-memory shard, the serialized shard and the ShardFileManager (add / flush / keyed-export / register histories, results of set operations) validated against the declared shard content by Trace_Shard.tla",
+    "TLC model checking of the lookup / dedup-query definitions of Shard.tla over all small shards (colliding prefixes, repeated chunks, plain and keyed, result buffer overflow; negative control: prefix-only answers); every dedup answer of the in-memory shard, the serialized shard and the ShardFileManager (add / flush / keyed-export / register histories, results of set operations) validated against the declared shard content by Trace_Shard.tla In addition ShardManager.tla (ShardFileManager at lock granularity: collections by key, two-section flush, query across collections; negative controls reset_late / hoisted_index / first_verdict) is model-checked, and TLC-generated schedules are replayed on two threads under gate control (plus sequential histories) with the hook events SmAdd / SmFlushWrite / SmRegister and every query answer validated by Trace_ShardManager.tla.",
     "Exhaustive check of the model's query semantics (Truthful, Complete below the collision limit) plus conformance: each recorded answer (n, xorb, range, bytes) must be truthful for some queried shard - recorded chunk hashes at the positions equal the queried hashes (plain, or their keyed form), bytes = sum of lengths - for present, absent, partially matching and overrunning queries under engineered 64-bit prefix collisions.",
     _SH_NOTE, "5.4, 6 C05")
 CLAIMED["C09"] = ("Shard",
@@ -52,12 +52,12 @@ CLAIMED["C10"] = ("Shard",
     "Exhaustive model checking of the merge for all pairs of sorted inputs over 3 hashes x 4 flag sets, plus conformance: the listing, totals and lookup tables of every result must equal the union / difference computed by the spec from the declared inputs; consolidation must keep every record retrievable, return existing hash-named shards, invent nothing and delete only shards covered by a returned shard.",
     _SH_NOTE, "5.4, 6 C10")
 CLAIMED["C18"] = ("Shard",
-    "TLC model checking of ShardKeyed.tla (export under keys, per-key collections, clock, load / clean; negative controls strict_expiry and no_grace); exports for 3 keys x 8 include-flag combinations, manager dedup with unkeyed hashes against original and keyed directories, expiry at the exact boundaries through a clock hook, validated by Trace_Shard.tla",
+    "TLC model checking of ShardKeyed.tla (export under keys, per-key collections, clock, load / clean; negative controls strict_expiry and no_grace); exports for 3 keys x 8 include-flag combinations, manager dedup with unkeyed hashes against original and keyed directories, expiry at the exact boundaries through a clock hook, validated by Trace_Shard.tla In addition ShardManager.tla (ShardFileManager at lock granularity: collections by key, two-section flush, query across collections; negative controls reset_late / hoisted_index / first_verdict) is model-checked, and TLC-generated schedules are replayed on two threads under gate control (plus sequential histories) with the hook events SmAdd / SmFlushWrite / SmRegister and every query answer validated by Trace_ShardManager.tla.",
     "Exhaustive model checking of the keyed-shard life cycle plus conformance: every exported shard must hold exactly the independently computed keyed form of every chunk hash (no raw hash under a non-zero key), unchanged xorb and file hashes, file records kept or dropped and optional tables present exactly as requested; manager answers for unkeyed queries equal the original's; loaded iff now <= expiry, deleted iff expiry + grace <= now.",
     _SH_NOTE + " Equality of manager answers is checked on collision-free prefixes (see evidence assumptions).", "5.4, 6 C18")
 
 CLAIMED["C19"] = ("AtomicFs",
-    "TLC model checking of AtomicFs.tla (temp + rename protocols of shard flush, consolidation, LocalClient put and cache put with Crash / Recover at every step; negative controls delete_before_write and write_final); directory snapshots taken by crash-point hooks between the real file-system effects (plus synthesized partial temp files) re-opened by the real components and validated by Trace_AtomicFs.tla",
+    "TLC model checking of AtomicFs.tla (temp + rename protocols of shard flush, consolidation, LocalClient put and cache put with Crash / Recover at every step; negative controls delete_before_write and write_final); directory snapshots taken by crash-point hooks between the real file-system effects (plus synthesized partial temp files) re-opened by the real components and validated by Trace_AtomicFs.tla; independently of the hooks, the operation's system calls (strace) projected to protocol steps and a fresh run killed (SIGKILL injection) just before every modifying call, the surviving directory re-opened by the real component (TrSys / TrSysCrash)",
     "Exhaustive model checking of the four write protocols with a crash after every effect, plus crash-point enumeration on the code: at every crash point of every run the copied directory must be exactly the file system the model predicts for that point, every final-named file must be complete and consistent with its name according to the component's own validator, the real re-open must succeed, everything retrievable before the operation must still be retrievable (cache: except subsumed / evicted items, and never wrong bytes), and temp files must be ignored or cleaned.",
     "process-crash model (completed system calls persist); a crash inside the write of the temporary file is emulated by truncating it to prefix lengths.",
     "5.8, 6 C19")
